@@ -32,11 +32,15 @@ def mkfn(name, doc=None, params="self"):
     return ns[name]
 
 
+_form = itertools.count()
+
+
 def decorate(flavour, fn):
     if flavour == "S":
         return state(fn)
     if flavour == "SF":
-        return state(first=True)(fn)
+        # decorator-factory form and call form (function plus keywords)
+        return state(first=True)(fn) if next(_form) % 2 else state(fn, first=True)
     if flavour == "T":
         return timed_state(duration=1.0)(fn)
     if flavour == "TF":
@@ -47,7 +51,8 @@ def decorate(flavour, fn):
 
 
 def deco(d, fn):
-    return {"state": lambda f: state(f), "state_first": lambda f: state(first=True)(f),
+    return {"state": lambda f: state(f),
+            "state_first": lambda f: state(first=True)(f) if next(_form) % 2 else state(f, first=True),
             "timed_state": lambda f: timed_state(duration=1.0, first=True)(f),
             "default_state": lambda f: default_state(f)}[d](fn)
 
